@@ -17,12 +17,15 @@ if ! cargo build --offline >"$LOG" 2>&1; then
   exit 2
 fi
 if [ "$ID" = "C19" ]; then
-  if ! cargo build --offline --manifest-path /repo/Cargo.toml --features cli --bins --target-dir "$HERE/harness/target/cli" >"$LOG" 2>&1; then
-    echo "BUILD-FAILED (cli tools); inconclusive"
-    tail -n 40 "$LOG"
-    rm -f "$LOG"
-    exit 2
-  fi
+  # the tools are checked as built with the dev profile and as built with the crate's release profile
+  for PROF in "" "--release"; do
+    if ! cargo build --offline $PROF --manifest-path /repo/Cargo.toml --features cli --bins --target-dir "$HERE/harness/target/cli" >"$LOG" 2>&1; then
+      echo "BUILD-FAILED (cli tools $PROF); inconclusive"
+      tail -n 40 "$LOG"
+      rm -f "$LOG"
+      exit 2
+    fi
+  done
 fi
 rm -f "$LOG"
 exec "$HERE/harness/target/debug/vp" check "$ID" --tier "$TIER"
